@@ -596,10 +596,16 @@ def decorate(n, shape, variant, seed) -> Dict[str, Any]:
 VARIANTS = ("plain", "advrule", "advctx", "twice")
 
 
+def _init_worker():
+    try:
+        import torch
+        torch.set_num_threads(1)
+    except Exception:
+        pass
+
+
 def _work(chunk):
     """chunk: list of (n, shape, [variants], seed)"""
-    import torch
-    torch.set_num_threads(1)
     stats = {e: [0, set()] for e in ENTRIES}
     sp = Counter()
     fails = []
@@ -687,7 +693,7 @@ def run_bounded(ctx: Ctx) -> Report:
     nchunks = max(1, (len(items) + csz - 1) // csz)
     chunks = [items[i::nchunks] for i in range(nchunks)]
     if ctx.jobs > 1:
-        with mp.get_context("fork").Pool(ctx.jobs) as pool:
+        with mp.get_context("fork").Pool(ctx.jobs, initializer=_init_worker) as pool:
             results = pool.map(_work, chunks, chunksize=1)
     else:
         results = [_work(c) for c in chunks]
